@@ -176,6 +176,9 @@ fn gen_transform(ch: &mut Chooser) -> Option<Matrix4<f32>> {
         // points of such a run are placed on one side of it, |w| >= 0.5
         // (see `c14_backend`)
         m[(3, 2)] = *ch.pick("xf_pz", &[1.0f32, -1.0, 0.5, -0.5]);
+    } else if ch.odds("xf_homogeneous_scale", 1, 4) {
+        // bottom row [0, 0, 0, w], w != 1: affine, but the divide matters
+        m[(3, 3)] = *ch.pick("xf_w_only", &[2.0f32, 0.5, 1.5, -1.0, -2.0]);
     }
     Some(m)
 }
